@@ -92,7 +92,7 @@ def run_job(job, ctx):
             for _ in range(k):
                 lines.append(r.choice(["v", "  v", "é", "0", "- item"]))
                 if r.random() < 0.2:
-                    lines.append(r.choice(["", "  ", "\t", " "]))
+                    lines.append(r.choice(["", "  ", "\t", " ", "\r", "\x0c", "\x0b", "\u2028", "\u0085", "\u3000", "\u00a0 ", "\ufeff"]))      # U+FEFF is not White_Space: that line counts
             expr = r.choice(SPELL) % (r.choice(OPS), n)
             blocks.append(vbatch.BBlock([("line-count", expr)], lines))
         eol = "\r\n" if job["i"] % 3 == 0 else "\n"
